@@ -75,6 +75,9 @@ type end struct {
 	// onWrite, if set, is called with every chunk written by this endpoint
 	// before it is appended (used for perturbation in the pipeline cases).
 	onWrite func(n int)
+	// afterWrite, if set, is called after the chunk is readable by the other
+	// side and before Write returns.
+	afterWrite func(n int)
 }
 
 func (e *end) Read(b []byte) (int, error) { return e.rd.read(b) }
@@ -82,7 +85,11 @@ func (e *end) Write(b []byte) (int, error) {
 	if e.onWrite != nil {
 		e.onWrite(len(b))
 	}
-	return e.wr.write(b)
+	n, err := e.wr.write(b)
+	if e.afterWrite != nil && err == nil {
+		e.afterWrite(n)
+	}
+	return n, err
 }
 
 // Close closes both directions: the other side reads EOF after the buffered
